@@ -51,7 +51,14 @@ func setup4(args ...string) (handler.Handler4, error) {
 }
 
 func Handler4(req, resp *dhcpv4.DHCPv4) (*dhcpv4.DHCPv4, bool) {
-	v6pref := req.IsOptionRequested(dhcpv4.OptionIPv6OnlyPreferred)
+	// RFC8925 §3.1: only for clients that explicitly list the option. IsOptionRequested()
+	// reports true for every option when the client sent no parameter request list at all.
+	v6pref := false
+	for _, o := range req.ParameterRequestList() {
+		if o.Code() == dhcpv4.OptionIPv6OnlyPreferred.Code() {
+			v6pref = true
+		}
+	}
 	log.WithFields(logrus.Fields{
 		"mac":      req.ClientHWAddr.String(),
 		"ipv6only": v6pref,
